@@ -47,6 +47,8 @@ func init() {
 			{ID: "C10.R22", Text: "leader-assigned numbering, role changes: elected ⇒ leader flag up and old leader forgotten; resigned ⇒ flag down and followers dropped; following ⇒ step down, drop followers and old leader, connect to the new leader with the configured port and both identities, record it and register (failure fatal) — an unreachable leader is not recorded; the flag setters, AssignLeader/RemoveLeader and Remove/RemoveAll do exactly that (exhaustive)", Run: leaderRoles},
 			{ID: "C10.R23", Text: "leader-assigned numbering, the RPC table: every client call names a constant Handler.M that *Handler has, with exactly the payload and reply types sent; Rebalance carries the caller's member number and group size, Register this member's identity; the handler announces exactly the payload's numbers and registers a follower ⇔ the connection back to it succeeded, with its own name and join time", Run: rpcAgreement},
 			{ID: "C10.R24", Text: "leader-assigned numbering, the RPC client: handed out only when connected ((client, nil) ⇔ connect succeeded), a dial keeps the connection and marks the client connected ⇔ it succeeded, Close closes a connected client once and is a no-op otherwise (exhaustive)", Run: rpcClientLifecycle},
+			{ID: "C10.R25", Text: "Couchbase membership, the numbering step evaluated whole (1..3 live instances, every equality pattern of their ids with this member's id): own number = position of the first instance carrying this member's id, group size = length of the list; announced ⇔ different from the numbering in effect; the list is recorded; a list without this member stops the client", Run: cbmNumbering},
+			{ID: "C10.R26", Text: "a peer identity that cannot be read is fatal on the branch on which reading it failed (members never number themselves against a half-read identity)", Run: identityParse},
 			{ID: "C10.R5", Text: "Couchbase membership: lastActiveInstances is written only in the numbering step after the publish decision; on CAS mismatch the round is restarted (monitor re-entered), nothing is rewritten", Run: c10r5},
 		},
 	})
